@@ -157,6 +157,41 @@ def spd(rng, n, cond=10.0, cross=True, scale=1.0):
     return M
 
 
+def sparse_pattern(rng, n):
+    """A symmetric positive *semi*-definite information matrix with exact zeros in a pattern: unconstrained axes (zero rows), independent axes and small
+    dense blocks (a planar robot in a 3-D graph: x-y correlated, z and yaw independent, roll/pitch unconstrained), or off-diagonal entries that cancel in sum.
+    Returns (matrix, label)."""
+    if n >= 3 and rng.random() < 0.3:
+        d = 10.0 ** rng.uniform(0, 2, size=n)
+        A = np.diag(d)
+        i, j, k = [int(x) for x in rng.choice(n, 3, replace=False)]
+        a = float(rng.uniform(0.05, 0.4)) * float(min(d[i], d[j], d[k]))
+        A[i, j] = A[j, i] = a
+        A[i, k] = A[k, i] = -a
+        return A, "offdiagonals_cancel_in_sum"
+    axes = [int(x) for x in rng.permutation(n)]
+    A = np.zeros((n, n))
+    n_zero = int(rng.integers(0, n)) if n > 1 else 0
+    rest = axes[n_zero:]
+    while rest:
+        g = int(rng.integers(1, min(3, len(rest)) + 1))
+        grp, rest = rest[:g], rest[g:]
+        B = spd(rng, g, 10.0) * float(10 ** rng.uniform(-1, 2)) if g > 1 else np.array([[float(10 ** rng.uniform(-1, 2))]])
+        A[np.ix_(grp, grp)] = B
+    return A, "zero_rows_and_blocks" if n_zero else "independent_blocks"
+
+
+def sparsify_information(rng, edges, share=0.5):
+    """Replace the information of about `share` of the edges by sparse_pattern matrices (the graph may become ill-posed: callers skip on cond)."""
+    labs = set()
+    for e in edges:
+        if rng.random() < share:
+            A, lab = sparse_pattern(rng, len(e["info"]))
+            e["info"] = A.tolist()
+            labs.add(lab)
+    return labs
+
+
 def structure_information(rng, edges):
     """Replace the (dense) information of a graph's edges by exactly structured matrices, as most datasets carry them: identity, c I, exactly
     diagonal (positive: the problem stays well-posed).  Returns the mode label."""
@@ -211,6 +246,13 @@ def info(rng, n, maxcond=1e3, scale_exp=0.0, cross=None, psd=False, extreme_scal
             labels.add("info:diagonal_with_a_zero_row")
             labels.add("info:cross" if cross and n >= 3 else "info:blockdiag")
             return M, labels
+    if psd and n > 1 and rng.random() < 0.5:
+        M, lab = sparse_pattern(rng, n)
+        M = M * sc
+        labels.add("info:singular")
+        labels.add("info:sparse:" + lab)
+        labels.add("info:cross" if has_cross(M) else "info:blockdiag")
+        return M, labels
     if psd and n > 1:
         v = rng.normal(size=n)
         v /= np.linalg.norm(v)
@@ -255,6 +297,26 @@ def vertex_id(rng, used, cls=None):
 # --------------------------------------------------------------------------- #
 # perturbation
 # --------------------------------------------------------------------------- #
+def coincide(rng, k, p, q):
+    """Return a copy of pose q (kind k) that coincides with pose p (same kind) in part - the values, not the objects: the same orientation at
+    another position (a vehicle driving straight; every vertex after a world rotation), the same position, one shared coordinate (a planar robot
+    in 3-D: same z), or all numbers equal.  Returns (q', label)."""
+    nt = {"r2": 2, "r3": 3, "se2": 2, "se3": 3}[k]
+    q = list(q)
+    opts = ["same_position", "one_shared_coordinate", "all_equal"] + (["same_orientation"] if k in ("se2", "se3") else [])
+    how = str(rng.choice(opts))
+    if how == "same_orientation":
+        q[nt:] = p[nt:]
+    elif how == "same_position":
+        q[:nt] = p[:nt]
+    elif how == "one_shared_coordinate":
+        j = int(rng.integers(nt))
+        q[j] = p[j]
+    else:
+        q = list(p)
+    return q, how
+
+
 def perturb(rng, k, p, tm, rm):
     """Right-perturb pose p (list of floats) by Gaussian noise of given translation/rotation sigma."""
     if k in ("r2", "r3"):
